@@ -34,6 +34,12 @@
 
 IW_EXTERN_C_START;
 
+#ifdef IOWOW_VERIF
+/// Verification event hook of iwstw.c / iwtp.c, see iwverif_exec.h. No effect while null.
+#define IOWOW_VERIF_EXEC_HOOK 1
+IW_EXPORT extern void (*iwverif_ev)(int kind, const void *obj, intptr_t arg);
+#endif
+
 struct iwstw;
 typedef struct iwstw*IWSTW;
 
